@@ -30,7 +30,7 @@ RULE = (
 )
 ASSUMPTIONS = ["no hash collisions among the generated inputs", "digest texts are sorted as text (the order the definition's 'sorted' refers to)"]
 BUDGET = {"quick": (300, 4), "thorough": (90000, 16)}
-REQUIRED = ["rename_file", "rename_dir", "edit", "c4", "multi_format", "empty_dir", "ignored_entry", "permuted", "nested_history", "user_pattern", "path_pattern_depth>=2", "edited_file_new_format"]
+REQUIRED = ["rename_file", "rename_dir", "edit", "c4", "multi_format", "empty_dir", "ignored_entry", "permuted", "nested_history", "user_pattern", "path_pattern_depth>=2", "edited_file_new_format", "printed_on_failing_tree"]
 
 
 @st.composite
@@ -298,10 +298,17 @@ def run_case(scn, ctx):
                     new = path + ".renamed"
                 w.mv(path, new)
                 ctx.event(ch["kind"])
-            w.rmtree("R/ascmhl")
-            tab3 = seal_and_read(w, "R", fmts, holder)
+            # against the recorded history the changed tree fails directory verification (exit 12) - the values printed for
+            # it are nevertheless the definition over the bytes and names now on disk, for every directory
             tree2 = w.subtree("R")
             ref2 = {f: refhash.dirhash(tree2, f)[2] for f in fmts}
+            for f in fmts[:2]:
+                res = w.verify("R", flags=["-dh", "-co", "-h", f])
+                require(res.exc is None and res.exit_code in (0, 12), "printed-after-change", "verify -dh -co -h %s on the changed tree: %s" % (f, res.brief()), res)
+                compare(printed_table(res.stdout), ref2, [f], "printed-after-change", res, "verify -dh -co on the changed tree (exit %s)" % res.exit_code)
+                ctx.event("printed_on_failing_tree" if res.exit_code == 12 else "printed_on_changed_tree_exit0")
+            w.rmtree("R/ascmhl")
+            tab3 = seal_and_read(w, "R", fmts, holder)
             compare(tab3, ref2, fmts, "manifest-after-change", holder[-1], "create after change")
             for f in fmts:
                 for a in ancestors:
